@@ -152,6 +152,87 @@ Proof.
   exists att. auto.
 Qed.
 
+(* ---- the model's escape values are unreachable ---- *)
+(* the loop's fuel (max+1) always suffices: doWithRetry never answers out-of-fuel, for any policy, verb and server *)
+Lemma do_with_retry_no_oof : forall policy verb env, do_with_retry policy verb env <> Some LOutOfFuel.
+Proof.
+  intros policy verb env. unfold do_with_retry. destruct (should_retry policy verb) as [[|]|]; [| |discriminate].
+  - intro H. apply (retry_loop_fuel (S max_tries) max_tries 0 0 (replayable verb) false env); [lia|lia|].
+    congruence.
+  - destruct (do_once (replayable verb) false env 0) as [r s]. discriminate.
+Qed.
+
+(* the panic branch (a policy shouldRetry does not know) is unreachable for a table whose policies are known *)
+Lemma do_with_retry_no_panic : forall f env, retry_ok f = true -> do_with_retry (policy_of f) (of_verb f) env <> None.
+Proof.
+  intros f env H. unfold do_with_retry. rewrite (should_retry_of_ok f H).
+  destruct (String.eqb (of_verb f) "GET"); [discriminate|].
+  destruct (do_once (replayable (of_verb f)) false env 0) as [r s]. discriminate.
+Qed.
+
+Lemma http_result_no_panic : forall f token r, http_result f token r <> RPanic.
+Proof.
+  intros f token r. unfold http_result. destruct r as [|s b etag rev]; [discriminate|].
+  destruct ((s =? 401) && String.eqb token ""); [discriminate|]. destruct (s =? 429); [discriminate|].
+  destruct ((400 <=? s) && (s <=? 599)).
+  - unfold decode_error. destruct b; try discriminate. destruct (of_err_resp f); [|discriminate].
+    destruct ((code_or_zero code =? 400) && negb (Nat.eqb ndiag 0)); discriminate.
+  - unfold decode_ok. destruct (String.eqb (of_resp f) "none"); [discriminate|].
+    destruct (String.eqb (of_resp f) "raw").
+    + destruct (String.eqb (of_name f) "EnvironmentExists"); [discriminate|]. destruct rev; [|discriminate].
+      destruct (String.eqb (of_name f) "GetEnvironment"); [discriminate|].
+      destruct (String.eqb (of_name f) "UpdateEnvironmentWithRevision"); discriminate.
+    + destruct b; discriminate.
+Qed.
+
+Lemma local_revision_no_panic : forall f a r, local_revision f a = Some r -> r <> RPanic.
+Proof.
+  intros f a r. unfold local_revision. destruct (String.eqb (of_name f) "GetRevisionNumber"); [|discriminate].
+  destruct (nth_s 3 a) as [|c v]; [discriminate|]. destruct (is_digit c); [|discriminate].
+  destruct (all_chars is_digit (String c v)); [|intro H; injection H as <-; discriminate].
+  match goal with |- context [if ?b then _ else _] => destruct b end; intro H; injection H as <-; discriminate.
+Qed.
+
+(* every call of the model either sends nothing (answered locally / request cannot be built) or is the loop's result:
+   the two zero-request escape branches (out of fuel, unknown policy) never occur *)
+Lemma run_call_total : forall f token a n env, retry_ok f = true ->
+  (exists r, (local_revision f a = Some r \/ (local_revision f a = None /\ build_request f token a n = None
+                                                /\ r = RErr "badreq" 0))
+             /\ run_call_env f token a n env = mk_obs [] 0 r)
+  \/ (exists rq r att srv, local_revision f a = None /\ build_request f token a n = Some rq
+        /\ do_with_retry (policy_of f) (of_verb f) env = Some (LDone r att srv)
+        /\ run_call_env f token a n env = mk_obs (repeat rq srv) att (http_result f token r)).
+Proof.
+  intros f token a n env HR. unfold run_call_env.
+  destruct (local_revision f a) as [r|] eqn:L; [left; exists r; auto|].
+  destruct (build_request f token a n) as [rq|] eqn:B; [|left; exists (RErr "badreq" 0); auto].
+  right. destruct (do_with_retry (policy_of f) (of_verb f) env) as [[r att srv|]|] eqn:D.
+  - exists rq, r, att, srv. auto.
+  - exfalso. exact (do_with_retry_no_oof _ _ _ D).
+  - exfalso. exact (do_with_retry_no_panic f env HR D).
+Qed.
+
+Lemma run_call_no_panic : forall f token a n env, retry_ok f = true ->
+  co_result (run_call_env f token a n env) <> RPanic.
+Proof.
+  intros f token a n env HR.
+  destruct (run_call_total f token a n env HR) as [(r & [L|(_ & _ & ->)] & ->)|(rq & r & att & srv & _ & _ & _ & ->)];
+    cbn [co_result].
+  - exact (local_revision_no_panic _ _ _ L).
+  - discriminate.
+  - apply http_result_no_panic.
+Qed.
+
+(* whatever the state of the FIRST connection (fresh, or kept alive by an earlier operation of the same client): at
+   most max tries; the server sees at most 2*max requests, and at most 2*max-1 when the first connection is fresh
+   (the case [run_call_env] models: every call of the correspondence runs against its own new server) *)
+Lemma retry_loop_any_connection : forall fuel max replay reused env r att srv,
+  retry_loop fuel max 0 0 replay reused env = LDone r att srv ->
+  (att <= Nat.max 1 max)%nat /\ (srv <= 2 * Nat.max 1 max - (if reused then 0 else 1))%nat.
+Proof.
+  intros fuel max replay reused env r att srv H. apply retry_loop_bounds in H. destruct reused; lia.
+Qed.
+
 (* ---- headers ---- *)
 Lemma sprintf_token : forall t, sprintf "token %s" [t] = "token " +++ t.
 Proof. intro t. cbn. rewrite append_nil_r. reflexivity. Qed.
@@ -190,20 +271,37 @@ Proof.
 Qed.
 
 (* ---- diagnostics ---- *)
-Definition kf_diag_code (status : N) (code : option N) (token : string) : bool :=
-  negb (code_or_zero code =? 400) || (status =? 429) || ((status =? 401) && String.eqb token "").
+(* the class of the known finding C20-diag-code, exactly: the "code" field of the BODY is absent or differs from 400 *)
+Definition kf_diag_code (code : option N) : bool := negb (code_or_zero code =? 400).
+
+(* replies the per-method diagnostics rule never sees: httpCall turns a 429 into "rate limit exceeded" and a 401 of a
+   client without a token into "this command requires logging in" before any body is decoded.  These are hypotheses
+   of the diagnostics statements (and counted by the correspondence as `diag_outside`), not part of the known class. *)
+Definition diag_applicable (status : N) (token : string) : bool :=
+  negb (status =? 429) && negb ((status =? 401) && String.eqb token "").
 
 Lemma diagnostics_result : forall f token s code n etag rev,
-  of_err_resp f = true -> 400 <= s -> s <= 499 -> n <> 0%nat -> kf_diag_code s code token = false ->
+  of_err_resp f = true -> 400 <= s -> s <= 499 -> n <> 0%nat -> diag_applicable s token = true ->
+  kf_diag_code code = false ->
   http_result f token (RpResp s (BJson code n) etag rev) = RDiags n.
 Proof.
-  intros f token s code n etag rev HE H1 H2 Hn HK. unfold kf_diag_code in HK.
-  apply orb_false_iff in HK as [HK K3]. apply orb_false_iff in HK as [K1 K2]. apply negb_false_iff in K1.
+  intros f token s code n etag rev HE H1 H2 Hn HA HK. unfold kf_diag_code in HK. apply negb_false_iff in HK.
+  unfold diag_applicable in HA. apply andb_true_iff in HA as [K2 K3]. apply negb_true_iff in K2, K3.
   unfold http_result. rewrite K3, K2.
   assert (R : ((400 <=? s) && (s <=? 599)) = true).
   { apply andb_true_iff; split; apply N.leb_le; lia. }
-  rewrite R. unfold decode_error. rewrite HE, K1.
+  rewrite R. unfold decode_error. rewrite HE, HK.
   destruct (Nat.eqb n 0) eqn:E; [apply Nat.eqb_eq in E; contradiction|]. reflexivity.
+Qed.
+
+(* what happens to the intercepted replies, whatever their body *)
+Lemma intercepted_result : forall f token s b etag rev, diag_applicable s token = false ->
+  http_result f token (RpResp s b etag rev) = RErr "login" 0
+  \/ http_result f token (RpResp s b etag rev) = RErr "ratelimit" 0.
+Proof.
+  intros f token s b etag rev H. unfold diag_applicable in H. unfold http_result.
+  destruct ((s =? 401) && String.eqb token ""); [left; reflexivity|].
+  destruct (s =? 429); [right; reflexivity|discriminate H].
 Qed.
 
 (* ---------------------------------------------------------------------------------------------- *)
@@ -297,11 +395,11 @@ Qed.
 Lemma t_diagnostics : of_err_resp f = true -> forall token a n env s code nd etag rev,
   names_ok f a = true -> local_revision f a = None ->
   env 0%nat = RpResp s (BJson code nd) etag rev -> 400 <= s -> s <= 499 -> nd <> 0%nat ->
-  kf_diag_code s code token = false ->
+  diag_applicable s token = true -> kf_diag_code code = false ->
   co_result (run_call_env f token a n env) = RDiags nd
   /\ length (co_requests (run_call_env f token a n env)) = 1%nat.
 Proof.
-  intros HE token a n env s code nd etag rev HN HL E0 H1 H2 Hn HK.
+  intros HE token a n env s code nd etag rev HN HL E0 H1 H2 Hn HA HK.
   assert (HV : of_verb f <> "GET").
   { pose proof (in_table_ok _ f (proj2 (proj2 (proj2 (proj2 (table_ok_parts HT))))) Hin) as H.
     cbv beta in H. rewrite HE in H. simpl in H. apply negb_true_iff in H. intro E. rewrite E in H. discriminate. }
@@ -326,6 +424,7 @@ Definition diagnostics_full_statement : Prop :=
   forall f, In f client_ops -> of_err_resp f = true -> forall token a n env s code nd etag rev,
     names_ok f a = true -> local_revision f a = None ->
     env 0%nat = RpResp s (BJson code nd) etag rev -> 400 <= s -> s <= 499 -> nd <> 0%nat ->
+    diag_applicable s token = true ->
     co_result (run_call_env f token a n env) = RDiags nd.
 
 Lemma diagnostics_full_refuted : ~ diagnostics_full_statement.
@@ -336,7 +435,7 @@ Proof.
   specialize (H _ Hin eq_refl "tok" ["org"; "proj"; "env"; ""] [] (fun _ => RpResp 400 (BJson None 1) "" None)
                 400 None 1%nat "" None eq_refl eq_refl eq_refl).
   assert (A : 400 <= 400) by lia. specialize (H A). assert (B : 400 <= 499) by lia. specialize (H B).
-  specialize (H ltac:(discriminate)). vm_compute in H. discriminate H.
+  specialize (H ltac:(discriminate) eq_refl). vm_compute in H. discriminate H.
 Qed.
 
 (* ---------------------------------------------------------------------------------------------- *)
